@@ -72,7 +72,6 @@ Theorem C02_spec_arith_is_checked_arith :
     match perform_checked op a b with
     | RVal v false => spec_arith op a b = EVal (VInt v)
     | RVal _ true => spec_arith op a b = EOverflow
-    | RPanic => spec_arith op a b = EVal (VInt 0)
     end.
 Proof. exact spec_arith_matches_kernel. Qed.
 
